@@ -104,3 +104,4 @@ def run(ctx, R):
     jitcross.rule_lwexec_a64(ctx, R)
     rtpreserve.rule_rvv_geninput(ctx, R)
     rtpreserve.rule_a64_calldest(ctx, R)
+    vmcfg.rule_initorder(ctx, R, F)
